@@ -350,6 +350,10 @@ def detect_spec_version(stix_dict):
                 (
                     detect_spec_version(obj)
                     for obj in stix_dict.get("objects", [])
+                    # malformed members are dealt with when the bundle's
+                    # "objects" property is validated
+                    if isinstance(obj, collections.abc.Mapping) and
+                    "type" in obj
                 ),
                 default="2.1",
             ),
